@@ -142,8 +142,9 @@ func HostRuleConfLoad(filename string) (HostConf, error) {
 
 	for hostTag, hostnameList := range *config.Hosts {
 		for _, hostName := range *hostnameList {
-			// host name is case-insensitive
-			hostName = strings.ToLower(hostName)
+			// host name is case-insensitive, and the host trie ignores
+			// the trailing dot of a fully qualified name
+			hostName = strings.TrimSuffix(strings.ToLower(hostName), ".")
 			if host2HostTag[hostName] != "" {
 				return conf, fmt.Errorf("host duplicate for %s", hostName)
 			}
